@@ -261,6 +261,15 @@ func genName(r *hx.Rng, dir bool) []byte {
 	if n > 2 && r.Intn(4) == 0 {
 		b[1] = '/'
 	}
+	if n > 1 && r.Intn(5) == 0 {
+		// bytes a reader might be tempted to normalise: names are kept byte for byte (backslash of old .NET packers, upper
+		// case, blank, colon, a byte that is not UTF-8, a leading slash, dot segments)
+		specials := []byte{'\\', '\\', 'A', ' ', ':', 0xe9, '/', '.'}
+		i, c := r.Intn(n), specials[r.Intn(len(specials))]
+		if !(c == '/' && i == n-1) { // a trailing slash would turn a member with data into a directory entry
+			b[i] = c
+		}
+	}
 	if dir {
 		b = append(b, '/')
 	}
